@@ -35,6 +35,41 @@ def build():
         ('with_range', dict(ret='r', props=P, mut_self=True, spec='ensures r.1 == range, r.0 == self.0,')),
         ('range', dict(ret='r', props=P, spec='ensures r == self.1,                 //@C12:range-of-the-diagnostic')),
     ])
+    # syntax_node.rs: SyntaxTreeBuilder hands the token texts to rowan's GreenNodeBuilder verbatim (C02) and records parser
+    # diagnostics at the offset it is given (C12)
+    U.file('crates/oq3_parser/src/syntax_kind/syntax_kind_enum.rs').item('enum', 'SyntaxKind')
+    U.raw('''pub mod rowan_green {
+    use vstd::prelude::*;
+    use super::GreenNode;
+    /// rowan::GreenNodeBuilder (external crate, trusted): `spelled()` is the concatenation of the token texts it was given, in order;
+    /// the finished tree spells exactly that
+    #[verifier::external_body] pub struct GreenNodeBuilder<'a> { _p: std::marker::PhantomData<&'a u8> }
+    #[verifier::external_body] pub struct RawKind { _p: u16 }
+    impl<'a> GreenNodeBuilder<'a> {
+        pub uninterp spec fn spelled(&self) -> Seq<char>;
+        #[verifier::external_body] pub fn token(&mut self, kind: RawKind, text: &str) ensures final(self).spelled() == old(self).spelled() + text@ { unimplemented!() }
+        #[verifier::external_body] pub fn start_node(&mut self, kind: RawKind) ensures final(self).spelled() == old(self).spelled() { unimplemented!() }
+        #[verifier::external_body] pub fn finish_node(&mut self) ensures final(self).spelled() == old(self).spelled() { unimplemented!() }
+        #[verifier::external_body] pub fn finish(self) -> (r: GreenNode) ensures r.text() == self.spelled() { unimplemented!() }
+    }
+}
+use rowan_green::GreenNodeBuilder;
+/// syntax_node.rs: `impl Language for OpenQASM3Language` (kind <-> rowan's raw u16 kind)
+pub struct OpenQASM3Language {}
+impl OpenQASM3Language { #[verifier::external_body] pub fn kind_to_raw(kind: SyntaxKind) -> (r: rowan_green::RawKind) { unimplemented!() } }
+''', note='rowan::GreenNodeBuilder (trusted): concatenates the token texts; OpenQASM3Language::kind_to_raw')
+    sn = U.file('crates/oq3_syntax/src/syntax_node.rs')
+    sn.item('struct', 'SyntaxTreeBuilder')
+    sn.impl('SyntaxTreeBuilder', [
+        ('finish_raw', dict(ret='r', props=P, spec='ensures r.0.text() == self.inner.spelled(), r.1 == self.errors,      //@C02:tree-spells-the-token-texts')),
+        ('token', dict(props=P, spec='ensures final(self).inner.spelled() == old(self).inner.spelled() + text@, final(self).errors == old(self).errors,      //@C02:token-text-passed-on-verbatim')),
+        ('start_node', dict(props=P, spec='ensures final(self).inner.spelled() == old(self).inner.spelled(), final(self).errors == old(self).errors,')),
+        ('finish_node', dict(props=P, spec='ensures final(self).inner.spelled() == old(self).inner.spelled(), final(self).errors == old(self).errors,')),
+        ('error', dict(props=P, spec='''ensures final(self).inner.spelled() == old(self).inner.spelled(),
+    // a parser diagnostic is recorded at exactly the offset handed in (an empty range there)
+    final(self).errors@.len() == old(self).errors@.len() + 1, final(self).errors@.drop_last() == old(self).errors@,
+    final(self).errors@.last().1.start == text_pos && final(self).errors@.last().1.end == text_pos,      //@C12:parser-diagnostic-at-the-given-offset''')),
+    ])
     # validation.rs: the one validator that is plain code (the others are closures over match_ast! / unescape callbacks)
     U.raw('''/// opaque view of the typed AST as far as validate_timing_literal needs it (trusted: rowan; node ranges lie inside the text, on char boundaries)
 pub mod ast {
